@@ -1,0 +1,86 @@
+//! Verification hooks (only compiled with `--cfg ruschm_verif`).
+//!
+//! A per-thread budget that turns non-termination, runaway recursion and huge
+//! allocations in *generated* programs into ordinary errors, so that fuzzing
+//! campaigns do not hang or abort. Disarmed by default: every entry point is
+//! then a no-op and behaviour is unchanged.
+use crate::error::*;
+use crate::interpreter::error::LogicError;
+use std::cell::Cell;
+
+thread_local! {
+    static ARMED: Cell<bool> = const { Cell::new(false) };
+    static FUEL: Cell<u64> = const { Cell::new(0) };
+    static DEPTH: Cell<u32> = const { Cell::new(0) };
+    static MAX_DEPTH: Cell<u32> = const { Cell::new(0) };
+    static MAX_ALLOC: Cell<usize> = const { Cell::new(usize::MAX) };
+    static TRIPPED: Cell<u8> = const { Cell::new(0) };
+}
+
+pub const FUEL_MESSAGE: &str = "verif: fuel";
+pub const DEPTH_MESSAGE: &str = "verif: depth";
+pub const ALLOC_MESSAGE: &str = "verif: alloc";
+
+/// Arm the budget on the current thread.
+pub fn arm(fuel: u64, max_depth: u32, max_alloc: usize) {
+    ARMED.with(|c| c.set(true));
+    FUEL.with(|c| c.set(fuel));
+    DEPTH.with(|c| c.set(0));
+    MAX_DEPTH.with(|c| c.set(max_depth));
+    MAX_ALLOC.with(|c| c.set(max_alloc));
+    TRIPPED.with(|c| c.set(0));
+}
+
+pub fn disarm() {
+    ARMED.with(|c| c.set(false));
+    DEPTH.with(|c| c.set(0));
+}
+
+/// 0 = never tripped since `arm`, 1 = fuel, 2 = depth, 3 = alloc.
+pub fn tripped() -> u8 {
+    TRIPPED.with(|c| c.get())
+}
+
+pub fn fuel_left() -> u64 {
+    FUEL.with(|c| c.get())
+}
+
+pub struct DepthGuard(bool);
+
+impl Drop for DepthGuard {
+    fn drop(&mut self) {
+        if self.0 {
+            DEPTH.with(|c| c.set(c.get().saturating_sub(1)));
+        }
+    }
+}
+
+/// One evaluation / expansion step: consumes fuel and one level of depth for
+/// as long as the returned guard lives.
+pub fn enter() -> Result<DepthGuard, SchemeError> {
+    if !ARMED.with(|c| c.get()) {
+        return Ok(DepthGuard(false));
+    }
+    let fuel = FUEL.with(|c| c.get());
+    if fuel == 0 {
+        TRIPPED.with(|c| c.set(1));
+        return Err(ErrorData::Logic(LogicError::Extension(FUEL_MESSAGE.to_string())).no_locate());
+    }
+    FUEL.with(|c| c.set(fuel - 1));
+    let depth = DEPTH.with(|c| c.get());
+    if depth >= MAX_DEPTH.with(|c| c.get()) {
+        TRIPPED.with(|c| c.set(2));
+        return Err(ErrorData::Logic(LogicError::Extension(DEPTH_MESSAGE.to_string())).no_locate());
+    }
+    DEPTH.with(|c| c.set(depth + 1));
+    Ok(DepthGuard(true))
+}
+
+/// A request to allocate `n` elements at once.
+pub fn alloc(n: usize) -> Result<(), SchemeError> {
+    if ARMED.with(|c| c.get()) && n > MAX_ALLOC.with(|c| c.get()) {
+        TRIPPED.with(|c| c.set(3));
+        return Err(ErrorData::Logic(LogicError::Extension(ALLOC_MESSAGE.to_string())).no_locate());
+    }
+    Ok(())
+}
